@@ -21,6 +21,15 @@ CLAIMED = {
         technique="symbolic execution of the real Python source (operator overloading) + z3 (LRA/NRA) per path; "
                   "concolic path selection + bounded fork exploration; counterexamples replayed on the real pipeflow",
         design="4/C01"),
+    "C03": dict(
+        text="Bounded model checking of the real code: every prescribed pressure / mass flow / lift / load is compared with "
+             "the value the real extraction writes into the result tables, as z3 terms over all numeric inputs. Linear "
+             "set-points are decided on the state after one undamped Newton step from an arbitrary state (their rows are "
+             "linear, so one step is exact and the fixed entries are inductive); pump curve and compressor ratio at the "
+             "exact fixed point of the element's own residual row.",
+        technique="symbolic execution of the real Python source + z3 (rewriter, linear abstraction, NRA) per path; "
+                  "concolic path selection; counterexamples replayed on the real pipeflow",
+        design="4/C03"),
 }
 
 NOT_APPLICABLE = {
